@@ -296,6 +296,8 @@ def main(tier):
         mdir = os.path.join(sdir, "maps")
         os.makedirs(mdir, exist_ok=True)
         tkeys = ["K%02d" % (i + 1) for i in range(len(pz))]     # ascending, as the compiler demands
+        # keys may contain colons themselves: MAP:KEY is split at the first one
+        tkeys = tkeys[:-2] + ["X:LON", "Y:a:b"] if len(tkeys) > 4 else tkeys
         for mname, rot in (("pfx", 0), ("pfx2", 3), ("p", 5)):
             with open(os.path.join(mdir, mname + ".tzmap"), "w") as f:
                 for i, k in enumerate(tkeys):
